@@ -4,6 +4,6 @@ set -euo pipefail
 N="$1"; D="/tmp/wt/$N"
 mkdir -p /tmp/wt
 git -C /repo worktree add --detach "$D" HEAD >/dev/null 2>&1
-cp -r --reflink=auto /repo/target "$D/target"
+mkdir -p "$D/target"; rsync -a --exclude incremental --exclude "deps/tmp_*" --exclude "deps/seed_*" --exclude "deps/*demo*" /repo/target/ "$D/target/"
 mkdir -p "$D/SEED"
 echo "$D"
